@@ -89,6 +89,7 @@ Proof.
   all: inj_some; split_ands;
        repeat match goal with H : tstate_eqb _ _ = true |- _ => apply tstate_eqb_eq in H end;
        cbn [probe_next] in *; subst;
+       repeat match goal with H : t_st _ = _ |- _ => rewrite H in * end; try discriminate;
        match goal with |- has_by (_ ++ [?ev]) ?ac _ => change ac with (e_by ev) end;
        apply has_by_snoc_new; reflexivity.
 Qed.
